@@ -628,7 +628,11 @@ fn run_case(case: &Case) -> CaseReport {
                 if who.len() == 1 {
                     // (a) an exchange of the budget got through: the owner's mapping reached this
                     //     machine while the budget was running
-                    let through = learned.iter().find(|(id, lt, tm, sip, smac)| *tm == st.m && *sip == dest && *id > st.start_ev && *lt <= window_end && macs[who[0]].contains(smac));
+                    //     (an answer handed over in the very instant the budget ends counts only if
+                    //     it was handed over before the call returned)
+                    let through = learned
+                        .iter()
+                        .find(|(id, lt, tm, sip, smac)| *tm == st.m && *sip == dest && *id > st.start_ev && (*lt < window_end || (*lt == window_end && id < done_ev)) && macs[who[0]].contains(smac));
                     if let Some((_, lt, _, _, smac)) = through {
                         let early = *done_ev < through.unwrap().0;
                         fails.push((
